@@ -34,7 +34,7 @@
   * ghost fields `pushed` (every element ever pushed) and `lost` (elements popped from a list and not
     handed to a live client) are history variables used only in statements.
 
-  `Quirks`: `true` = prescribed behaviour, `false` = what the tree does today (`Quirks.code`).
+  `Quirks`: `true` = prescribed behaviour, `false` = what the tree did when the model was written (`Quirks.code`).
 -/
 import FerrousSpec.Model.Bytes
 namespace Ferrous.Blk
@@ -129,7 +129,8 @@ structure Quirks where
   dedupKeys : Bool
 deriving DecidableEq, Repr
 
-/-- The tree as it is today (confirmed over TCP by lib/c13.py on every run). -/
+/-- The tree before the first blocking repair.  What the tree does on a given run is read from the source by the
+    translator (Gen/Blocking.lean) and confirmed over TCP by lib/c13.py. -/
 def Quirks.code : Quirks := ⟨false, false, false, false, false⟩
 def Quirks.fixed : Quirks := ⟨true, true, true, true, true⟩
 
